@@ -29,6 +29,11 @@ func C02(r *core.Report) {
 	c02Blockhash(r)
 	c14NoPooledAliasAs(r, "C02.R5")
 	c02TransactionAnswer(r)
+	for _, k := range []string{"main.(*Epoch).GetBlock", "main.(*Epoch).GetTransaction", "main.(*Epoch).GetNodeByCid", "main.(*Epoch).ReadAtFromCar"} {
+		if f := r.Anchor("C02.R7", k); f != nil {
+			checkReentrant(r, "C02.R7", f, "requests")
+		}
+	}
 	r.Floor("C02.R1", 10)
 	r.Floor("C02.R2", 6)
 	r.Floor("C02.R3", 4)
@@ -669,11 +674,19 @@ func c02Blockhash(r *core.Report) {
 				}
 				nW++
 				last, fromHash := false, strings.Contains(core.ExprStr(as.Rhs[0]), ".Hash")
-				for _, fc := range wg.FactsAt(n) {
-					if be, ok := core.Unparen(fc.Expr).(*ast.BinaryExpr); ok && fc.Tag == nil && fc.Truth && be.Op == token.EQL {
-						s := core.ExprStr(be)
-						if strings.Contains(s, "len(block.Entries) - 1") || strings.Contains(s, "len(block.Entries)-1") {
-							last = true
+				// a fact `k == len(X) - 1` where k is the index of an enclosing range over X
+				for _, rs := range enclosingRanges(f.Body, as.Pos()) {
+					keys := keyCopiesOf(info, rs)
+					want := "len(" + core.ExprStr(rs.X) + ") - 1"
+					for _, fc := range wg.FactsAt(n) {
+						be, ok := core.Unparen(fc.Expr).(*ast.BinaryExpr)
+						if !ok || fc.Tag != nil || !fc.Truth || be.Op != token.EQL {
+							continue
+						}
+						for _, pair := range [][2]ast.Expr{{be.X, be.Y}, {be.Y, be.X}} {
+							if keys[core.ObjOf(info, pair[0])] && core.ExprStr(core.Unparen(pair[1])) == want {
+								last = true
+							}
 						}
 					}
 				}
